@@ -228,15 +228,9 @@ def run(tier):
     from . import driver_trace
     driver_trace.report(rep, traces, wd, lambda tid: "cls=%s script=%s" % (meta[tid][1], json.dumps(meta[tid][0]["calls"])[:300]))
     # judge
-    jin, jout = os.path.join(wd, "judge_in.ndjson"), os.path.join(wd, "judge_out.ndjson")
-    core.write_ndjson(jin, recs)
-    jr = core.tlc("Judge_Driver", "Judge_Driver.cfg", workers=1, env={"JUDGE_IN": jin, "JUDGE_OUT": jout},
-                  timeout=3000, heap="6g")
-    if not (jr.rc == 0 and "JUDGED" in jr.stdout):
-        raise core.MachineryError("Judge_Driver failed:\n" + "\n".join(jr.stdout.splitlines()[-30:]))
+    bad, jr = core.judge("Judge_Driver", recs, wd, name="judge", unjudgeable="C08_unjudgeable")
     rep.add_tlc("Judge_Driver", jr, counts_as_model=False)
     rep.traces += len(recs)
-    bad = core.read_ndjson(jout) if os.path.exists(jout) else []
     for b in bad:
         if not b["clause"].startswith("C08"):
             continue       # C07 clauses on these runs are reported by the C07 check
